@@ -686,3 +686,73 @@ func init() {
 	register("C04", Rule{"R04d", ruleRawRowsOnlyUnderIdentity})
 	register("C01", Rule{"R04d", ruleRawRowsOnlyUnderIdentity})
 }
+
+// R04e: an identity projector has as many columns as the row.  `isIdentity(width)` licenses the fast paths that hand
+// out stored rows in place of their projection (R04d).  A projector that names only the leading columns is not the
+// identity: the rows keep the dropped columns, so duplicates no longer collapse and members no longer compare equal.
+// Every return of a non-false value from isIdentity must be dominated by the equal edge of a comparison between the
+// projector's length and the width.
+func ruleIdentityNeedsFullWidth(p *Program, r *Report) {
+	r.Begin("R04e", "identity means full width: in (valueProjector).isIdentity every return that can be true is dominated by the equal edge of a comparison of len(projector) with the width parameter", 1)
+	defer r.End()
+	fn := p.Method("rel", "valueProjector", "isIdentity")
+	if fn == nil || len(fn.Params) < 2 {
+		r.Undecided("anchor", "rel.valueProjector.isIdentity(width) not found", 0)
+		return
+	}
+	r.Fn(FnName(fn))
+	recv, width := fn.Params[0], fn.Params[1]
+	isLen := func(v ssa.Value) bool {
+		c, ok := v.(*ssa.Call)
+		if !ok {
+			return false
+		}
+		b, ok := c.Call.Value.(*ssa.Builtin)
+		return ok && b.Name() == "len" && len(c.Call.Args) == 1 && DependsOn(c.Call.Args[0], func(x ssa.Value) bool { return x == ssa.Value(recv) })
+	}
+	// blocks entered only when len(p) == width
+	var eqHeads []*ssa.BasicBlock
+	for _, b := range fn.Blocks {
+		iff, ok := b.Instrs[len(b.Instrs)-1].(*ssa.If)
+		if !ok {
+			continue
+		}
+		bo, ok := iff.Cond.(*ssa.BinOp)
+		if !ok || (bo.Op != token.EQL && bo.Op != token.NEQ) {
+			continue
+		}
+		if !((isLen(bo.X) && bo.Y == ssa.Value(width)) || (isLen(bo.Y) && bo.X == ssa.Value(width))) {
+			continue
+		}
+		k := 0
+		if bo.Op == token.NEQ {
+			k = 1
+		}
+		if len(b.Succs[k].Preds) == 1 {
+			eqHeads = append(eqHeads, b.Succs[k])
+		}
+	}
+	n := 0
+	for _, b := range fn.Blocks {
+		ret, ok := b.Instrs[len(b.Instrs)-1].(*ssa.Return)
+		if !ok || len(ret.Results) != 1 {
+			continue
+		}
+		if bv, isC := BoolConst(RetVal(ret, 0)); isC && !bv {
+			continue
+		}
+		n++
+		ok2 := false
+		for _, h := range eqHeads {
+			if h == b || h.Dominates(b) {
+				ok2 = true
+			}
+		}
+		r.Check(ok2, fmt.Sprintf("full-width@return~%d", n), "returned only when len(projector) == width", "isIdentity can answer true for a projector shorter than the row: the one-sided joins then hand out stored rows that still carry the dropped columns — rows that agree on the kept attributes stay distinct, `count` is too large and genuine members fail `<:`", ret.Pos())
+	}
+	if n == 0 {
+		r.Undecided("returns", "isIdentity has no return that can be true", fn.Pos())
+	}
+}
+
+func init() { register("C04", Rule{"R04e", ruleIdentityNeedsFullWidth}) }
